@@ -232,7 +232,14 @@ class Machine:
             # the model forgets the request first: cancelling may grant successors before cancel() returns
             queue.remove(r)
             r.state = "cancelled"
-            r.req.cancel()
+            # a pending request is withdrawn either explicitly or by leaving its with-block (normally, e.g. after `yield req |
+            # timeout` timed out) - alternately
+            self.n_cancels = getattr(self, "n_cancels", 0) + 1
+            if self.n_cancels % 2:
+                r.req.cancel()
+            else:
+                r.req.__exit__(None, None, None)
+                self.bump("pending request withdrawn by leaving its with-block")
             self.bump("cancel_head_with_successor" if head and queue else "cancel")
             if head and queue and self.satisfiable(queue[0]):
                 self.bump("cancel head with satisfiable successor")
@@ -500,7 +507,8 @@ PROP = Property(
           "exactly the item a reference FIFO/first-match model hands it (identity or equality and type), after every operation."),
     facets=[
         Facet("Container", container_strategy, run_case, quick=700, thorough=5000,
-              essential=["blocked_then_granted", "cancel_head_with_successor", "amount==free space", "amount==level",
+              essential=["blocked_then_granted", "cancel_head_with_successor", "pending request withdrawn by leaving its with-block",
+                         "amount==free space", "amount==level",
                          "non-positive amount refused", "put and get at one instant"]),
         Facet("Store", store_strategy("Store"), run_case, quick=400, thorough=3000,
               essential=["blocked_then_granted", "cancel_head_with_successor"]),
